@@ -240,4 +240,36 @@ end
 
 end
 
+/-! ### Bounded numeric value specs (`pg.typing.Float/Int(min_value, max_value)`) -/
+
+structure Bound where
+  lo : Option Num
+  hi : Option Num
+
+def Bound.has (b : Bound) (x : Num) : Bool :=
+  (match b.lo with
+   | none => true
+   | some l => Num.le l x) &&
+  (match b.hi with
+   | none => true
+   | some h => Num.le x h)
+
+mutual
+  /-- What a bounded numeric field accepts when a (hyper) value is bound to it: a number within
+  the bounds; a `floatv` whose whole range is within the bounds (`Float.custom_apply`,
+  numerical.py); a `oneof` all of whose candidates are accepted (`OneOf.custom_apply`,
+  categorical.py:434-466). -/
+  def okB (b : Bound) : Tmpl → Bool
+    | .const a =>
+      match a.num? with
+      | some x => b.has x
+      | none => false
+    | .node _ _ => false
+    | .choice _ one _ cands _ _ => one && okBL b cands
+    | .floatv _ lo hi => b.has lo && b.has hi
+  def okBL (b : Bound) : List Tmpl → Bool
+    | [] => true
+    | c :: cs => okB b c && okBL b cs
+end
+
 end Pg.C13
